@@ -901,6 +901,44 @@ def r7_opening_a_view(rep, src):
                 rep.ok('C11.R7', ctor.site, what, 'no values; after append: %s (tokens %s)' % (got, kinds))
 
 
+def r8_memo_slots(rep, src):
+    """a lazily filled attribute (`if self.x is None: self.x = <computation>`) remembers one computation: two methods that fill the
+    same attribute with different computations hand each other's result out -- whichever runs first decides what both return from
+    then on (the text of a value with and without its comment lines share a slot: after an append, which asks for the full text,
+    the list view shows the comment as part of the value)"""
+    n = 0
+    for modname in (PM, TK):
+        mod = src.mod(modname)
+        for cname in mod.classes:
+            fills = {}
+            for q, fn in mod.funcs.items():
+                if not q.startswith(cname + '.') or '.' in q[len(cname) + 1:]:
+                    continue
+                for st in ast.walk(fn.node):
+                    if not (isinstance(st, ast.If) and isinstance(st.test, ast.Compare) and len(st.test.ops) == 1 and isinstance(st.test.ops[0], ast.Is)
+                            and isinstance(st.test.comparators[0], ast.Constant) and st.test.comparators[0].value is None
+                            and isinstance(st.test.left, ast.Attribute) and norm(st.test.left.value) == 'self'):
+                        continue
+                    attr = st.test.left.attr
+                    for a_ in st.body:
+                        if isinstance(a_, ast.Assign) and len(a_.targets) == 1 and norm(a_.targets[0]) == 'self.' + attr:
+                            fills.setdefault(attr, []).append((fn, a_))
+            for attr, lst in sorted(fills.items()):
+                n += 1
+                kinds = {}
+                for fn, a_ in lst:
+                    kinds.setdefault(norm(a_.value), []).append(fn)
+                site = '%s:%s' % (modname, cname)
+                if len(kinds) > 1:
+                    (k1, f1), (k2, f2) = list(kinds.items())[:2]
+                    rep.fail('C11.R8', site, 'memo slot %s holds one computation' % attr, '%s fills self.%s with `%s`, %s fills the same attribute with `%s`: after one of them has run '
+                             'the other returns its result' % (f1[0].qual, attr, k1[:60], f2[0].qual, k2[:60]), where=f2[0].where)
+                else:
+                    rep.ok('C11.R8', site, 'memo slot %s holds one computation' % attr, '%d lazy fill(s), one computation' % len(lst), nontrivial=len(lst) > 1)
+    if n < 2:
+        raise AnalysisError('only %d lazily filled attributes found in the parser classes' % n)
+
+
 def check(src, rep, tier):
     rep.explanation = ('C11: (R1) call-graph effect analysis in Deb822ParsedTokenList: methods that (transitively) mutate the token list must '
                        '(transitively) store _changed = True, read accessors must do neither, _update_field is called only from __exit__ under '
@@ -923,5 +961,7 @@ def check(src, rep, tier):
     rep.guard('C11.R3', r2_r3_tokenizers, src)
     rep.guard('C11.R4', r4_writeback, src)
     rep.guard('C11.R6', r6_views_are_fresh, src)
+    rep.need('C11.R8', 2)
+    rep.guard('C11.R8', r8_memo_slots, src)
     rep.need('C11.R7', 15)
     rep.guard('C11.R7', r7_opening_a_view, src)
